@@ -41,6 +41,9 @@ type CaseR struct {
 	// Unbind: bit k set (k >= 1) = the name is made unbound with fmakunbound right before definition k; the callers
 	// compiled earlier must see definition k all the same
 	Unbind int `json:"unbind,omitempty"`
+	// Generic: the name is a generic function (defgeneric, then one unspecialised defmethod per definition); only when
+	// every shape has required parameters only and all have the same number of them (Docs and Unbind are not used)
+	Generic bool `json:"generic,omitempty"`
 }
 
 var callForms = []string{"direct", "funcall-name", "funcall-function", "apply-name", "compiled-caller"}
@@ -87,6 +90,15 @@ func runR(c CaseR) *h.Result {
 				}
 			}
 		}
+	}
+	generic := c.Generic
+	for _, sh := range c.Shapes {
+		if len(sh.Opt)+len(sh.Key)+len(sh.Aux) > 0 || sh.Rest != "" || len(sh.Req) != len(c.Shapes[0].Req) || len(sh.Req) == 0 {
+			generic = false
+		}
+	}
+	if generic {
+		res.Classes = append(res.Classes, "R:generic-function")
 	}
 	n := fnCounter.Add(1)
 	name := "c04r" + strconv.FormatInt(n, 10)
@@ -139,18 +151,27 @@ func runR(c CaseR) *h.Result {
 	for k, sh := range c.Shapes {
 		ps := sh.Params()
 		mark := "entered-" + strconv.Itoa(k)
-		if k > 0 && c.Unbind&(1<<k) != 0 {
+		if k > 0 && c.Unbind&(1<<k) != 0 && !generic {
 			if r := setup("(fmakunbound '" + name + ")"); r != nil {
 				return r
 			}
 			res.Classes = append(res.Classes, "R:fmakunbound-before-redefinition")
 		}
 		doc := ""
-		if c.Docs&(1<<k) != 0 {
+		if c.Docs&(1<<k) != 0 && !generic {
 			doc = " \"definition " + strconv.Itoa(k) + "\""
 			res.Classes = append(res.Classes, "R:docstring")
 		}
-		if r := setup("(defun " + name + " " + sh.LambdaList() + doc + " (vt:mark '" + mark + ") (list " + strings.Join(ps, " ") + "))"); r != nil {
+		if generic {
+			if k == 0 {
+				if r := setup("(defgeneric " + name + " " + sh.LambdaList() + ")"); r != nil {
+					return r
+				}
+			}
+			if r := setup("(defmethod " + name + " " + sh.LambdaList() + " (vt:mark '" + mark + ") (list " + strings.Join(ps, " ") + "))"); r != nil {
+				return r
+			}
+		} else if r := setup("(defun " + name + " " + sh.LambdaList() + doc + " (vt:mark '" + mark + ") (list " + strings.Join(ps, " ") + "))"); r != nil {
 			return r
 		}
 		if k == 0 && !c.Forward {
@@ -198,9 +219,16 @@ func runR(c CaseR) *h.Result {
 
 func genR(rt *rapid.T) (c CaseR) {
 	n := rapid.IntRange(2, 3).Draw(rt, "ndefs")
+	c.Generic = rapid.IntRange(0, 4).Draw(rt, "generic") == 0
+	arity := rapid.IntRange(1, 3).Draw(rt, "generic-arity")
 	for i := 0; i < n; i++ {
 		var sh Case
-		if i > 0 && rapid.IntRange(0, 3).Draw(rt, "variant") == 0 {
+		if c.Generic {
+			// required parameters only, the same number in every definition, other names each time
+			for k := 0; k < arity; k++ {
+				sh.Req = append(sh.Req, fmt.Sprintf("g%d%c", i, 'a'+k))
+			}
+		} else if i > 0 && rapid.IntRange(0, 3).Draw(rt, "variant") == 0 {
 			// the previous shape with one required parameter more or less (the smallest change of the arity)
 			sh = c.Shapes[i-1]
 			sh.Req = append([]string{}, sh.Req...)
